@@ -374,7 +374,7 @@ func (state *RuntimeState) u2fSignResponse(w http.ResponseWriter, r *http.Reques
 			if isXHR {
 				eventNotifier.PublishWebLoginEvent(authData.Username)
 			}
-			_, err = state.updateAuthCookieAuthlevel(w, r,
+			_, err = state.updateAuthCookieAuthlevel(w, r, authData.Username,
 				authData.AuthType|AuthTypeU2F)
 			if err != nil {
 				logger.Printf("Auth Cookie NOT found ? %s", err)
@@ -406,7 +406,7 @@ func (state *RuntimeState) u2fSignResponse(w http.ResponseWriter, r *http.Reques
 			if isXHR {
 				eventNotifier.PublishWebLoginEvent(authData.Username)
 			}
-			_, err = state.updateAuthCookieAuthlevel(w, r,
+			_, err = state.updateAuthCookieAuthlevel(w, r, authData.Username,
 				authData.AuthType|AuthTypeU2F)
 			if err != nil {
 				logger.Printf("Auth Cookie NOT found ? %s", err)
